@@ -548,7 +548,7 @@ class Flow:
                     return
                 out.add(Origin('agg', norm(rv['adt']) + '::' + rv['vname'], path, bb))
                 return
-            if ak == 'tuple' and path and path[0].isdigit() and int(path[0]) < len(rv['ops']):
+            if ak in ('tuple', 'closure') and path and path[0].isdigit() and int(path[0]) < len(rv['ops']):
                 for x in self.origins(rv['ops'][int(path[0])], path[1:], depth, interproc, seen, mut_calls):
                     out.add(x)
                 return
